@@ -41,6 +41,18 @@ CHECKS.update({
    technique="Coq proof (equivalence of two recursive checkers with a global invariant, nested induction) + differential correspondence on corrupted states",
    ref="DESIGN.md section 6 C18"),
 })
+CHECKS.update({
+ "C02": dict(
+   text="Theorems C02_c_range, C02_py_range (keys/values/items with any min/max/excludemin/excludemax = the interval filter on the contents, an exclusive omitted bound dropping only the overall smallest/largest key), C02_c_minmax, C02_py_minmax (minKey/maxKey), C02_c_lazyseq (length and ANY run of index operations of the C lazy sequence, the finger moving right and left, agree with the list), for EVERY tree satisfying the stored invariant (stale separators, single-child roots, one-key leaves), and C02_reachable_wf (API trees satisfy it). Models of the C and of the Python range algorithms compared with both implementations on history-built and __setstate__-installed stale-separator trees: bound pairs from present keys / gaps / outside / None x four flags, index runs, slices, all families.",
+   note="Trusted: Coq kernel; Model/Range.v + Model/RTree.v tied by correspondence; positions are (leaf index, offset) in the in-order leaf sequence (PreviousBucket / lastBucket pointer walks abstracted); the slice of a C lazy sequence is compared with the list slice, not modelled separately. Print Assumptions: closed. Four defects found and fixed in /repo (F1-F4).",
+   technique="Coq proof over all trees satisfying the stored invariant (hand-written models of both range algorithms) + differential correspondence",
+   ref="DESIGN.md section 6 C02"),
+ "C13": dict(
+   text="Theorems C13_c_int / C13_c_range_arith (the C conversion macros, including their (int)vcopy != vcopy arithmetic, accept exactly ints/bools inside the type's range and store the argument itself), C13_py_int, C13_c_py_agree, over bounds regenerated from _datatypes.py / the macro headers by the translator. The harness offers ~90 candidate values as key and as value through every writing entry point of all 22 families x 4 kinds x 2 implementations and checks rejection-without-modification, exact read-back (floats: single-precision rounding, bit-exact by struct) and absence on lookups.",
+   note="Partial: the float32 rounding is checked differentially (struct.pack('f')), not proved in Coq; bytes and object-key acceptance are modelled as boolean predicates only. __setstate__ as an entry point performs no validation in Python and clears before converting in C (design limitation, not exercised). Known finding F8 (Python float values not rounded). Print Assumptions: closed.",
+   technique="Coq proof (lia over generated bounds) about hand-written conversion models + exhaustive boundary sweep through all entry points",
+   ref="DESIGN.md section 6 C13"),
+})
 NOT_YET = {}
 
 def main():
